@@ -10,6 +10,15 @@ canonical run digests; the Lean Spec (`HappyModel/C03/Spec.lean`) judges the dig
 A case is a small batch of scenarios `(family, cfg, seed)`; each is digested
   inproc | sub-h0 | sub-h1 | sub-hx (fresh interpreters, PYTHONHASHSEED 0, 1, 12345/random) | after-activity | wallclock.
 Transcript: `obs <i> <family> <env> <sha256> <len>`; all environments of a scenario must agree.
+
+`inproc`, `after-activity` and `wallclock` are three runs of the SAME scenario with the SAME seeds in ONE process (the
+third directly after the second, with nothing but the clock patch in between): an unseeded `random.Random()`, OS entropy
+or leftover class-level state shows as a difference between them; hash-order dependence shows between the fresh
+interpreters.  The scenarios rely on `random.seed` / `numpy.random.seed` (`base.seed_all`) only; a per-object `seed=` is
+passed only to components whose own default is an OS-seeded private generator (RandomEviction, SampledLRU, ring hashing,
+RandomPartition, sketches, behaviour populations).  Generation as in C07 (`hv/scenarios/`): every constructor parameter /
+policy variant, sizes above the library's internal constants (2Q ghost list 50, Topic history 100, phi window 200, …),
+sustained overload (RED between its thresholds), 40 % maximum-coverage configurations (`gen_cfg_wide`).
 """
 from __future__ import annotations
 
@@ -48,7 +57,7 @@ class C03(core.Property):
     hypotheses = ["Equivariant mc g: the handler commutes with renaming event ids by g (it may store, return and cancel ids, not compute with them)",
                   "StrictMono g on ids; g maps the fresh region nextId+j to nextId'+j"]
     variants = ["current"]
-    quick_cases = 10          # × BATCH scenarios
+    quick_cases = 16          # × BATCH scenarios
     thorough_cases = 90         # × BATCH scenarios × 6 environments
     case_timeout_s = 600
     pool_workers = 1
@@ -56,9 +65,12 @@ class C03(core.Property):
     BATCH = 8
     rule = ("one case = a batch of 8 scenarios (family, generated cfg, seed) from hv/scenarios/fam_*.py (round-robin over all "
             "families); each scenario is run in 6 environments (in-process; fresh interpreters with PYTHONHASHSEED 0, 1, 12345; "
-            "after unrelated activity incl. a second Simulation constructed before the run; jumping wall clock) and the sha256 "
+            "after unrelated activity incl. a second Simulation constructed before the run; jumping wall clock — the three in-process "
+            "environments are the same scenario run three times with the same seeds in one process) and the sha256 "
             "of the canonical digest (delivery sequence (time ns, event type, target) + component statistics, floats as bit "
-            "patterns, uuid4 ids renamed by first appearance) is compared; non-trivial = every scenario of the batch made ≥ 50 "
+            "patterns, uuid4 ids renamed by first appearance) is compared; families draw every constructor parameter / policy "
+            "variant, key spaces above the library's internal constants, sustained overload; 40 % of the scenarios are a family's "
+            "maximum-coverage configuration (all variants in one run); non-trivial = every scenario of the batch made ≥ 50 "
             "digest lines; distinct = distinct batch content. Families with a Lean component model elsewhere in /verif: "
             + "; ".join(f"{k}: {v}" for k, v in sorted(MODEL_BACKED_ELSEWHERE.items())) +
             "; for all families the cross-environment comparison is differential testing of the code against itself.")
@@ -83,12 +95,19 @@ class C03(core.Property):
         return families()
 
     def generate(self, rng: random.Random, i: int, tier: str) -> dict:
+        from hv.scenarios import draw_cfg
+
         fams = self._families()
         names = sorted(fams)
         scens = []
         for k in range(self.BATCH):
             name = names[(i * self.BATCH + k) % len(names)]
-            scens.append({"family": name, "cfg": fams[name].gen_cfg(rng), "seed": rng.randrange(2**31)})
+            # 40 %: the family's maximum-coverage configuration (all policy variants in one run, key spaces above the
+            # library's internal constants, sustained overload) where it defines one
+            cfg = draw_cfg(fams[name], rng)
+            if tier == "thorough" and isinstance(cfg.get("end"), (int, float)) and rng.random() < 0.15:
+                cfg["end"] = float(cfg["end"]) * 2
+            scens.append({"family": name, "cfg": cfg, "seed": rng.randrange(2**31)})
         case = {"family": scens[0]["family"], "scenarios": scens}
         if tier == "thorough":   # a different third hash seed per case
             case["hashseeds"] = [0, 1, rng.randrange(2, 2**32 - 1)]
@@ -131,14 +150,18 @@ class C03(core.Property):
             for env in env_order:
                 s, n = table[(i, env)]
                 out.append(f"obs {i} {sc['family']} {env} {s} {n}")
-        # detail: first differing digest line of each differing pair (against the in-process baseline)
+        # detail: first differing digest line of each differing pair (against the in-process baseline); a fresh
+        # interpreter is re-run for the detail of at most two pairs per case (a bug that breaks every scenario of a
+        # batch would otherwise cost dozens of extra interpreters)
+        respawns = 0
         for i, sc in enumerate(scens):
             base = table[(i, "inproc")]
             for env in env_order[1:]:
                 if table[(i, env)] == base:
                     continue
                 other = lines.get((i, env))
-                if other is None and env.startswith("sub-h") and table[(i, env)][0] != "SUBPROCESS-FAILED":
+                if other is None and env.startswith("sub-h") and table[(i, env)][0] != "SUBPROCESS-FAILED" and respawns < 2:
+                    respawns += 1
                     res, err = envs.collect_sub(envs.spawn_sub([sc], hnum[env], full=[0]))
                     other = (res[0]["lines"] if res else None)
                 if other is not None:
@@ -205,7 +228,9 @@ class C03(core.Property):
             if rng.random() < 0.5:
                 sc["seed"] = rng.randrange(2**31)
             else:
-                sc["cfg"] = fams[sc["family"]].gen_cfg(rng)
+                from hv.scenarios import draw_cfg
+
+                sc["cfg"] = draw_cfg(fams[sc["family"]], rng)
         return c
 
     def extra_checks(self, ctx):
